@@ -435,6 +435,8 @@ def _merge(x, y, ow):
         return ("err", "conflict")
     except TypeError:
         return ("err", "type")
+    except Exception as e:  # noqa: BLE001  (anything else is reported by the oracle as merge-raised)
+        return ("err", "exc:" + type(e).__name__)
 
 
 def _res_line(tag, r, base):
@@ -585,8 +587,8 @@ def _impl(case, tmp):
             hr = ("ok", harvest(top, [H(x) for x in objs], return_partial=True))
         except ValueError:
             hr = ("err", "conflict")
-        except TypeError:
-            hr = ("err", "type")
+        except Exception as e:  # noqa: BLE001
+            hr = ("err", "exc:" + type(e).__name__)
         ab = _merge(a, b, False)
         fold = _merge(ab[1], c, False) if ab[0] == "ok" else ab
         l = canon_val(hr[1], base) if hr[0] == "ok" else "raise"
